@@ -201,8 +201,13 @@ def _execute_one(doc: dict, name: str) -> dict:
             rnd = random.Random(op["vals_seed"])
             # whatever arrays the encoder object keeps between calls
             # (found generically, so that renaming them changes nothing)
-            scratch = packgen.scratch_arrays(enc)
-            if not scratch:
+            # (only index arrays of the shape the unchanged tree keeps: one
+            # entry per item; anything else an implementation may keep is
+            # left alone)
+            scratch = [a for a in packgen.scratch_arrays(enc)
+                       if a.ndim == 1 and len(a) == n_items
+                       and np.issubdtype(a.dtype, np.integer)]
+            if len(scratch) < 2:
                 continue
             starts = scratch[0]
             ends = scratch[-1]
@@ -225,6 +230,16 @@ def _execute_one(doc: dict, name: str) -> dict:
             res["events"].append(["scribble_scratch", sub])
             dirty = f"scratch:{sub}"
             just_scribbled = True
+            continue
+        if kind == "decode_fails":
+            xf = np.array([int(v) for v in op["x"]], dtype=xdtype)
+            try:
+                enc.decode(xf, np.zeros((n_items, 6), dtype=inst.dtype))
+                outcome = "returned"
+            except Exception as exc:  # noqa: BLE001
+                outcome = type(exc).__name__
+            core.bump(res["faults"], "decode_call_fails")
+            res["events"].append(["decode_fails", outcome])
             continue
         if kind == "decode_bad":
             # always exactly n_items valid ids (shrunk documents included):
